@@ -293,12 +293,12 @@ def dispatch_rule(chk, prog):
     if "QuaternionArray.from_DCM(QuaternionArray, kwargs.pop('DCM'), inplace=False, **kwargs)" in txt:
         chk.record("DISPATCH", qa.ref, "QuaternionArray(DCM=..., **options) forwards the options to from_DCM")
     else:
-        chk.finding("DISPATCH", QUAT, "QuaternionArray.__new__", "DCM route", "QuaternionArray(DCM=...) no longer forwards method/version/threshold to from_DCM", line=qa.node.lineno)
+        chk.error("DISPATCH: the DCM= route of QuaternionArray.__new__ is not in the recognised form (cannot decide option forwarding)")
     qn = prog.func(QUAT + "::Quaternion.__new__")
     if "Quaternion.from_DCM(Quaternion, kwargs.pop('dcm'), **kwargs)" in ast.unparse(qn.node):
         chk.record("DISPATCH", qn.ref, "Quaternion(dcm=..., **options) forwards the options to from_DCM")
     else:
-        chk.finding("DISPATCH", QUAT, "Quaternion.__new__", "dcm route", "Quaternion(dcm=...) no longer forwards method/version/threshold to from_DCM", line=qn.node.lineno)
+        chk.error("DISPATCH: the dcm= route of Quaternion.__new__ is not in the recognised form (cannot decide option forwarding)")
 
 
 def canaries(chk, prog):
